@@ -9,7 +9,9 @@ infretis_genvel, ASE) is constructed offline on small generated inputs in a scra
 prescribed standard-normal values and captures the `scale` argument; the REAL
 `prepare_shooting_point` (tis.py) -> `modify_velocities` runs; the written genvel.* file, the
 returned (dek, kin_new), the number of stream values consumed and the source path/frames are
-compared with the extracted model and with the property's own statement (oracle).
+compared with the extracted model and with the property's own statement (oracle).  Sequence family:
+several such calls one after the other in ONE exe_dir without clean-up, on different shooting points
+(VelM.modify_seq, rule "extraction overwrites").
 """
 import importlib.util  # noqa: F401
 import contextlib
@@ -19,8 +21,10 @@ import itertools
 import json
 import math
 import os
+import random
 import tempfile
 import textwrap
+import time
 from fractions import Fraction as Fr
 
 import numpy as np
@@ -31,9 +35,9 @@ import params_c16  # noqa: F401  (registers the ParamsC16 extractor before regen
 META = {
     "id": "C16",
     "level": "proof",
-    "technique": "Coq theorems over an exact-rational model of draw/reset_momentum/kinetic_energy/modify_velocities (algebra by ring/field, unit constants by vm_compute on constants regenerated from the sources) + lock-step of the extracted model vs the real engine classes with a recording random generator; call sites: a model of the settings dictionary every move of tis.py hands to modify_velocities, in lock-step with the real shoot / wire_fencing / select_shoot / run_md and the real program on a spy engine, and the total momentum of the frames a real in-process engine (TurtleMD) writes inside the moves",
-    "text": "Unbounded theorems over Q: m*v^2 = kT*z^2 for every drawn component (so zero mean and <m v^2> = kT are inherited from the unit normal stream) for every engine's beta = 1/(kb*T), LAMMPS after its velocity scale and ASE's momentum draw included; lifted to the whole operation (C16_modify_variance*: every component of every atom of the velocities written by modify_velocities, momentum reset off) and to the reported kinetic energy (C16_modify_equipartition*: kin_new = (1/2) kT sum z^2 in the engine's unit); per-engine SI statements (C16_temperature_si_*: kg * (m/s)^2 of a written component = k_B(SI) T z^2 within 1e-6, CP2K 2e-6) over the constants regenerated from the sources; zero total momentum and a uniform shift after reset_momentum / Stationary; dek = kin_new - kin_old with kin_new the kinetic energy of the written velocities; positions, box, identities and every file except conf.*/genvel.* untouched; the result is a function of the first npart*dim stream values; source FILES whose optional entries are absent (no VELOCITY block in a .g96 frame, no velocity columns / no 'Box:' entry in an xyz snapshot: VelM.cfile has them as options, the readers' defaults are modelled) -- C16_file_written_is_modify_std: with the special case of GromacsEngine.modify_velocities in place the written genvel file is exactly modify_std of the frame as read, for every engine and every such file, so all theorems above carry over; C16_file_kin_new_is_written: one velocity line per atom, kin_new is the kinetic energy of the written lines; C16_file_no_velocities_kin_old: kin_old = 0 and dek infinite for a source without velocities (GROMACS: the stored system.ekin); C16_gromacs_no_velocity_block_special_case_needed: with a test that never fires the velocity block is empty while kin_new is non-zero (refutation witness). Closed numeric lemmas tie each engine's constants (kb, LAMMPS scale, CP2K mass factor, as exact rationals of the float literals in the sources) to the SI values. The model is tied to /repo by running the real prepare_shooting_point/modify_velocities of all five engine classes on generated inputs with prescribed draws and comparing files and return values with the extracted model, and by evaluating the statement itself (including an SI-unit temperature check independent of the engines' constants) on the implementation's output. Source frames of every set-up include, next to moving frames and a frame at rest, frames whose file has no velocities (GROMACS .g96 without VELOCITY block, TurtleMD/CP2K xyz without velocity columns, ASE Atoms without momenta) and, for the xyz engines, no 'Box:' entry (with and without velocities); the oracle reads the written genvel file back with its own parser: number of velocity entries = number of atoms, kinetic energy of the written velocities = reported kin_new, dek = kin_new - kin_old with kin_old the kinetic energy of the source frame as read (infinite when that is zero, i.e. also for a frame without velocities; GROMACS: the stored ekin), box = the file's, or the CP2K template's / none (TurtleMD) where the file has none. CALL SITES (wherever the package regenerates velocities): C16_call_site_settings -- for every move (shoot; wire_fencing with any number of jumps, usable or not) every dictionary handed to modify_velocities agrees with the ensemble's tis_set on every key except allowmaxlength (nothing is dropped: wire_fencing passes the ensemble's own dictionary with allowmaxlength switched on); C16_call_site_count (one regeneration per shooting move, one per jump); C16_call_site_momentum_zero -- zero_momentum = true in the ensemble's settings gives zero total momentum of the velocities written by EVERY regeneration of EVERY move, the ones inside a wire-fencing move included; C16_call_site_rebuilt_settings_refuted -- a wire-fencing move that builds a fresh {allowmaxlength, maxlength} dictionary for its sub-moves loses the request (TurtleMD then keeps the centre-of-mass motion). Tied to /repo by three families: (a) the real shoot / wire_fencing, called directly, through select_shoot and through run_md, on a spy engine (the lattice plug-in recording the vel_settings it is handed and the chain of tis.py functions on the stack), for configurations with every key that any engine's modify_velocities reads (discovered from the engine sources' ASTs on every run: zero_momentum, and the AMS engine's aimless / momentum / rescale / rescale_energy) at non-default values, each key also flipped alone, and nothing configured; n_jumps 1-3, with and without interface_cap, paths with one / two / no wire-fencing segment; oracle: every such key arrives at every call site with the configured value (a dropped or altered key is reported with the call site, the key, the value received and the value configured); the recorded dictionaries, in order and entry by entry, equal the model's (VelM.handed); (b) the real program (setup_config -> scheduler -> run_md, sh and wf ensembles, 1-2 workers) with the spy as plug-in engine and the settings in [simulation.tis_set] of the input file: same oracle on every regeneration of the run; (c) the real shoot / wire_fencing with a real TurtleMD engine (2 and 3 atoms, Langevin dynamics): every genvel.xyz written inside a move is read back with the independent parser and has zero total momentum when zero_momentum = true is configured (and the same settings oracle). Every place of the package that calls or passes on modify_velocities / prepare_shooting_point / shoot / wire_fencing / select_shoot / run_md is listed from the ASTs and must be one of the driven ones. An exception of the real code on a generated (legal) input -- engine constructor, prepare_shooting_point / modify_velocities, a move, the program -- is reported as a violation with that input.",
-    "note": "All theorems print 'Closed under the global context' (Q only, no real-number axioms, no Interval). Trusted: Coq kernel; extraction (ExtrOcamlBasic) + ocaml/util.ml + ocaml/c16_driver.ml; py/checks/c16.py (input writers, file parsers, recorder, tolerances); py/params_c16.py; the SI constants written in VelM.v / c16.py (2019 SI, CODATA 2018). Not modelled: floating-point rounding (model is exact; comparisons within 1e-9 relative plus the 9-decimal file format quantum), the square root (sigma is captured from the implementation and sigma^2*m*beta = 1 is checked exactly on it to 1e-12), the Gaussian law of numpy's normal(), ASE internals (thermalize_momenta/Stationary are modelled from their source and tied by the lock-step), velocities generated by the external GROMACS program. Frames without velocities: lammpstrj has no optional entries and a .g96 frame keeps its BOX block, so LAMMPS has no such input and GROMACS only the missing VELOCITY block; TurtleMD and CP2K extract the shooting frame with _extract_frame first, which writes zero velocity columns, so for them the velocity-less file is seen by the reader of the extraction, not by modify_velocities itself; these and the GROMACS cases are compared with the file-level model VelM.modify_file (special case on). The variance theorem concerns the draw; with zero_momentum the per-atom variance is reduced by the centre-of-mass part (C16_reset_kinetic quantifies it). CP2K's kb literal is 1.2e-6 away from the 2019 SI value, so its unit lemmas are shown to 2e-6 instead of 1e-6 (no lower bound is asserted: correcting the literal breaks nothing). Lead L5 (ASE draws from numpy's global generator, not engine.rgen) is recorded under C07; this check handles both sources and lists the one in use under coverage.draw_source_per_engine. Call sites: keys and values of the settings dictionaries are interned as integers for the model (True = 1, False = 0, key order kept: the model's dictionary update keeps the position of an existing key and appends a new one, as Python does); the spy engine is the lattice walk of py/plugins/engines.py with a recording modify_velocities (py/plugins/c16_plugins.py), the call site is read off the Python stack; which keys the engines read is taken from `vel_settings.get(\"k\", d)` / `vel_settings[\"k\"]` in every modify_velocities of infretis/classes/engines (any other use of the parameter makes the oracle demand every configured key); the AMS engine itself is not run (needs an AMS worker), its keys are covered through the spy; the TurtleMD family uses an order parameter that does not depend on velocities (Path.reverse of a wire-fencing move with a velocity-dependent one is the C20 finding L12); the external-program engines are not run inside moves (no executables), their modify_velocities is tied by the per-engine lock-step above and the settings they are handed by the spy families; tools/generate_H2_loadpaths.py calls shoot with a given shooting point only (no regeneration).",
+    "technique": "Coq theorems over an exact-rational model of draw/reset_momentum/kinetic_energy/modify_velocities (algebra by ring/field, unit constants by vm_compute on constants regenerated from the sources) + lock-step of the extracted model vs the real engine classes with a recording random generator; call sites: a model of the settings dictionary every move of tis.py hands to modify_velocities, in lock-step with the real shoot / wire_fencing / select_shoot / run_md and the real program on a spy engine, and the total momentum of the frames a real in-process engine (TurtleMD) writes inside the moves; several calls in one worker directory: a model with files as trajectories and the engine's scratch files conf.* / genvel.* as state (rule: extraction overwrites), in lock-step with consecutive real modify_velocities calls of all five engine classes in one exe_dir without clean-up",
+    "text": "Unbounded theorems over Q: m*v^2 = kT*z^2 for every drawn component (so zero mean and <m v^2> = kT are inherited from the unit normal stream) for every engine's beta = 1/(kb*T), LAMMPS after its velocity scale and ASE's momentum draw included; lifted to the whole operation (C16_modify_variance*: every component of every atom of the velocities written by modify_velocities, momentum reset off) and to the reported kinetic energy (C16_modify_equipartition*: kin_new = (1/2) kT sum z^2 in the engine's unit); per-engine SI statements (C16_temperature_si_*: kg * (m/s)^2 of a written component = k_B(SI) T z^2 within 1e-6, CP2K 2e-6) over the constants regenerated from the sources; zero total momentum and a uniform shift after reset_momentum / Stationary; dek = kin_new - kin_old with kin_new the kinetic energy of the written velocities; positions, box, identities and every file except conf.*/genvel.* untouched; the result is a function of the first npart*dim stream values; source FILES whose optional entries are absent (no VELOCITY block in a .g96 frame, no velocity columns / no 'Box:' entry in an xyz snapshot: VelM.cfile has them as options, the readers' defaults are modelled) -- C16_file_written_is_modify_std: with the special case of GromacsEngine.modify_velocities in place the written genvel file is exactly modify_std of the frame as read, for every engine and every such file, so all theorems above carry over; C16_file_kin_new_is_written: one velocity line per atom, kin_new is the kinetic energy of the written lines; C16_file_no_velocities_kin_old: kin_old = 0 and dek infinite for a source without velocities (GROMACS: the stored system.ekin); C16_gromacs_no_velocity_block_special_case_needed: with a test that never fires the velocity block is empty while kin_new is non-zero (refutation witness). Closed numeric lemmas tie each engine's constants (kb, LAMMPS scale, CP2K mass factor, as exact rationals of the float literals in the sources) to the SI values. The model is tied to /repo by running the real prepare_shooting_point/modify_velocities of all five engine classes on generated inputs with prescribed draws and comparing files and return values with the extracted model, and by evaluating the statement itself (including an SI-unit temperature check independent of the engines' constants) on the implementation's output. Source frames of every set-up include, next to moving frames and a frame at rest, frames whose file has no velocities (GROMACS .g96 without VELOCITY block, TurtleMD/CP2K xyz without velocity columns, ASE Atoms without momenta) and, for the xyz engines, no 'Box:' entry (with and without velocities); the oracle reads the written genvel file back with its own parser: number of velocity entries = number of atoms, kinetic energy of the written velocities = reported kin_new, dek = kin_new - kin_old with kin_old the kinetic energy of the source frame as read (infinite when that is zero, i.e. also for a frame without velocities; GROMACS: the stored ekin), box = the file's, or the CP2K template's / none (TurtleMD) where the file has none. CALL SITES (wherever the package regenerates velocities): C16_call_site_settings -- for every move (shoot; wire_fencing with any number of jumps, usable or not) every dictionary handed to modify_velocities agrees with the ensemble's tis_set on every key except allowmaxlength (nothing is dropped: wire_fencing passes the ensemble's own dictionary with allowmaxlength switched on); C16_call_site_count (one regeneration per shooting move, one per jump); C16_call_site_momentum_zero -- zero_momentum = true in the ensemble's settings gives zero total momentum of the velocities written by EVERY regeneration of EVERY move, the ones inside a wire-fencing move included; C16_call_site_rebuilt_settings_refuted -- a wire-fencing move that builds a fresh {allowmaxlength, maxlength} dictionary for its sub-moves loses the request (TurtleMD then keeps the centre-of-mass motion). Tied to /repo by three families: (a) the real shoot / wire_fencing, called directly, through select_shoot and through run_md, on a spy engine (the lattice plug-in recording the vel_settings it is handed and the chain of tis.py functions on the stack), for configurations with every key that any engine's modify_velocities reads (discovered from the engine sources' ASTs on every run: zero_momentum, and the AMS engine's aimless / momentum / rescale / rescale_energy) at non-default values, each key also flipped alone, and nothing configured; n_jumps 1-3, with and without interface_cap, paths with one / two / no wire-fencing segment; oracle: every such key arrives at every call site with the configured value (a dropped or altered key is reported with the call site, the key, the value received and the value configured); the recorded dictionaries, in order and entry by entry, equal the model's (VelM.handed); (b) the real program (setup_config -> scheduler -> run_md, sh and wf ensembles, 1-2 workers) with the spy as plug-in engine and the settings in [simulation.tis_set] of the input file: same oracle on every regeneration of the run; (c) the real shoot / wire_fencing with a real TurtleMD engine (2 and 3 atoms, Langevin dynamics): every genvel.xyz written inside a move is read back with the independent parser and has zero total momentum when zero_momentum = true is configured (and the same settings oracle). Every place of the package that calls or passes on modify_velocities / prepare_shooting_point / shoot / wire_fencing / select_shoot / run_md is listed from the ASTs and must be one of the driven ones. An exception of the real code on a generated (legal) input -- engine constructor, prepare_shooting_point / modify_velocities, a move, the program -- is reported as a violation with that input. SEQUENCES OF CALLS (velocities are regenerated once per jump of a wire-fencing move between two clean-ups of the worker directory, so conf.* / genvel.* of the earlier calls are still there): VelM.modify_seq -- files are trajectories, a shooting point is (file, index), dump_frame extracts the snapshot into conf.<ext> of the exe_dir, the reader takes the first snapshot of that file, genvel.<ext> is rewritten; C16_extract_overwrites (the rule: after the extraction conf.<ext> holds exactly that snapshot); C16_sequence_independent (unbounded, any number of calls, any operations): with the rule every call of a sequence returns exactly what it returns alone -- its own operation with ITS draws on ITS shooting point as found in the source files -- and the source files are as before; C16_sequence_history_irrelevant (two different histories give the same result for the same last call); C16_sequence_positions (call by call: positions, box, identities are those of that call's shooting point, kin_old is the kinetic energy of that frame's velocities, the result is modify_std of that frame, so every theorem above applies to each call); C16_sequence_append_refuted (an extraction that appends, i.e. write_xyz_trajectory without append=False: the second call carries the positions of the first call's shooting point and its kin_old / dek). Tied to /repo by the sequence family: for every set-up of every engine class (TurtleMD, CP2K, LAMMPS, GROMACS with infretis_genvel, ASE -- none needs its external program for this operation) and zero_momentum absent / False / True, 5-8 consecutive calls of the real prepare_shooting_point -> modify_velocities in ONE fresh exe_dir without any clean-up in between, on different shooting points in a shuffled order (every special frame of the multi-frame trajectory file -- moving, at rest, without velocities, without box entry --, two frames of a second file, and the first shooting point once more at the end; at least one step inside a file and one between files), each call with its own prescribed draws; oracle per call, evaluated for THAT call's shooting point: positions, box and identities of genvel.* read back with the independent parser, kin_old = kinetic energy of that frame's velocities, kin_new = that of the written velocities, dek = kin_new - kin_old (infinite for kin_old = 0 / missing), zero momentum when requested, SI temperature (zero_momentum off), every source file byte-for-byte unchanged, path frames untouched; a regenerated frame that carries the positions of an EARLIER call's shooting point is named as such; the whole sequence is compared with the extracted VelM.seq_results (rule on), values consumed per call included.",
+    "note": "All theorems print 'Closed under the global context' (Q only, no real-number axioms, no Interval). Trusted: Coq kernel; extraction (ExtrOcamlBasic) + ocaml/util.ml + ocaml/c16_driver.ml; py/checks/c16.py (input writers, file parsers, recorder, tolerances); py/params_c16.py; the SI constants written in VelM.v / c16.py (2019 SI, CODATA 2018). Not modelled: floating-point rounding (model is exact; comparisons within 1e-9 relative plus the 9-decimal file format quantum), the square root (sigma is captured from the implementation and sigma^2*m*beta = 1 is checked exactly on it to 1e-12), the Gaussian law of numpy's normal(), ASE internals (thermalize_momenta/Stationary are modelled from their source and tied by the lock-step), velocities generated by the external GROMACS program. Frames without velocities: lammpstrj has no optional entries and a .g96 frame keeps its BOX block, so LAMMPS has no such input and GROMACS only the missing VELOCITY block; TurtleMD and CP2K extract the shooting frame with _extract_frame first, which writes zero velocity columns, so for them the velocity-less file is seen by the reader of the extraction, not by modify_velocities itself; these and the GROMACS cases are compared with the file-level model VelM.modify_file (special case on). The variance theorem concerns the draw; with zero_momentum the per-atom variance is reduced by the centre-of-mass part (C16_reset_kinetic quantifies it). CP2K's kb literal is 1.2e-6 away from the 2019 SI value, so its unit lemmas are shown to 2e-6 instead of 1e-6 (no lower bound is asserted: correcting the literal breaks nothing). Lead L5 (ASE draws from numpy's global generator, not engine.rgen) is recorded under C07; this check handles both sources and lists the one in use under coverage.draw_source_per_engine. Call sites: keys and values of the settings dictionaries are interned as integers for the model (True = 1, False = 0, key order kept: the model's dictionary update keeps the position of an existing key and appends a new one, as Python does); the spy engine is the lattice walk of py/plugins/engines.py with a recording modify_velocities (py/plugins/c16_plugins.py), the call site is read off the Python stack; which keys the engines read is taken from `vel_settings.get(\"k\", d)` / `vel_settings[\"k\"]` in every modify_velocities of infretis/classes/engines (any other use of the parameter makes the oracle demand every configured key); the AMS engine itself is not run (needs an AMS worker), its keys are covered through the spy; the TurtleMD family uses an order parameter that does not depend on velocities (Path.reverse of a wire-fencing move with a velocity-dependent one is the C20 finding L12); the external-program engines are not run inside moves (no executables), their modify_velocities is tied by the per-engine lock-step above and the settings they are handed by the spy families; tools/generate_H2_loadpaths.py calls shoot with a given shooting point only (no regeneration). Sequences of calls: the model HAS the engine's scratch state (VelM.tworld: conf / genvel / source files as lists of snapshots), so the family is model + oracle; the model's reader takes the first snapshot of conf.<ext> (read_xyz_file / read_lammpstrj(.., 0, ..) / read_gromos96_file; ase.io.read takes the last one -- with the rule in place the file holds exactly one, C16_extract_overwrites); only calls whose shooting point lies in a source file are covered by the theorem (from_source), a shooting point that IS the previous call's genvel file is not in the family (inside a move the next shooting point comes from a path file written by propagate under its own name); GROMACS source frames are one-frame .g96 files, so for GROMACS every step of a sequence is a step to another file (multi-frame .trr sources need the binary writer and are left out), and GROMACS with velocities generated by the external gmx program (infretis_genvel = false) is not driven (needs gmx grompp/mdrun); the standard deviations handed to the model are those captured in the first call of a sequence (every call's own are checked against sigma^2*m*beta = 1); the sequence family draws its inputs from its own seeded generator so that the inputs of the older families are unchanged.",
     "design_ref": "4/C16",
 }
 LEVEL = "proof"
@@ -602,8 +606,10 @@ def snapshot_path(path):
     return snap
 
 
-def evaluate(kit, eng, setup, frames, cfgs, files, idx, zm, stream, ekins, ase_source, use_real=None, ref_stream=None):
+def evaluate(kit, eng, setup, frames, cfgs, files, idx, zm, stream, ekins, ase_source, use_real=None, ref_stream=None, fresh=True):
     """Run the real prepare_shooting_point on a path over `frames`, shooting from `idx`.
+    `fresh=False`: conf.* / genvel.* left in the exe_dir by an earlier call stay where they are
+    (no clean-up between the calls of one move).
 
     Returns (obs, errs): observations for the correspondence and a list of oracle failures."""
     from infretis.classes.path import Path as InfPath
@@ -625,7 +631,7 @@ def evaluate(kit, eng, setup, frames, cfgs, files, idx, zm, stream, ekins, ase_s
     vs = {"aimless": True}
     if zm is not None:
         vs["zero_momentum"] = zm
-    for fn in ("conf", "genvel"):
+    for fn in ("conf", "genvel") if fresh else ():
         p = os.path.join(eng.exe_dir, f"{fn}.{eng.ext}")
         if os.path.exists(p):
             os.remove(p)
@@ -896,6 +902,154 @@ def run_parallel(runner, reqs, workers=8):
     with ThreadPoolExecutor(max_workers=workers) as ex:
         parts = list(ex.map(runner.run, chunks))
     return [a for p_ in parts for a in p_]
+
+
+# ----------------------------------------------------------------------------- sequences of calls in one exe_dir
+# Velocities are regenerated several times between two clean_up() calls of a worker directory: select_shoot
+# cleans it once per move, wire_fencing then calls shoot -> prepare_shooting_point once per jump.  conf.<ext> and
+# genvel.<ext> of the earlier calls are still in the directory when the next call dumps ITS shooting point.
+# Family: several consecutive calls of the real prepare_shooting_point -> modify_velocities in ONE exe_dir, no
+# clean-up in between, on DIFFERENT shooting points (other frames of the same trajectory file, frames of another
+# file, frames whose file lacks velocities / the box entry, and the first shooting point once more at the end), each
+# call with its own draws.  Oracle per call = the oracle of `evaluate` for THAT call's shooting point (positions,
+# box, identities, kin_old of that frame's velocities, kin_new of the written velocities, dek, momentum, sources
+# untouched) + the SI temperature statement; model: VelM.modify_seq with the rule "extraction overwrites"
+# (C16_sequence_independent: every call yields what it yields alone).
+SEQ_EXTRA = 2          # stream values handed out beyond the npart*3 a call consumes
+SEQ_WALL = [0.0]       # seconds spent in the real calls of the family (reported under coverage.sequences)
+
+
+def sequence_calls(rng, kind, n):
+    """[{file, idx, stream}]: every special frame of source 0, two frames of source 1, in an order that has both a
+    step inside one file and a step between files; then the first shooting point again."""
+    cand = [(0, i) for i in shoot_indices(kind)] + [(1, 1), (1, 2)]
+    for _ in range(50):
+        rng.shuffle(cand)
+        steps = list(zip(cand, cand[1:]))
+        if any(a[0] == b[0] for a, b in steps) and any(a[0] != b[0] for a, b in steps):
+            break
+    cand = cand + [cand[0]]
+    return [{"file": f, "idx": i, "stream": [qs(Fr(rng.randrange(-4096, 4097), 1024)) for _ in range(n * 3 + SEQ_EXTRA)]} for f, i in cand]
+
+
+def run_sequence(kit, eng, setup, sources, calls, zm, ekins, ase_src):
+    """The calls, one after the other, in one fresh exe_dir.  sources: [(frames, cfgs, files)].
+    -> [(obs or None, errs)] per call made (stops after a call that raised)."""
+    kind = kit.kind
+    n = len(setup["names"])
+    old_exe = eng.exe_dir
+    eng.exe_dir = kit.newdir("seqexe")
+    allfiles = [f for _, _, fl in sources for f in fl]
+    out = []
+    try:
+        for k, c in enumerate(calls):
+            frames, cfgs, _ = sources[c["file"]]
+            stream = [common.parse_q(z) for z in c["stream"]]
+            try:
+                obs, errs = evaluate(kit, eng, setup, frames, cfgs, allfiles, c["idx"], zm, stream, ekins, ase_src, fresh=False)
+            except Exception as e:  # noqa: BLE001  a crash of the real code on a legal input is a finding
+                import traceback
+                out.append((None, [f"prepare_shooting_point / modify_velocities raised {type(e).__name__}: {e} [{traceback.format_exc(limit=3)[-400:]}]"]))
+                break
+            if any(x.startswith("positions changed") for x in errs):
+                got = [[fr(x) for x in r] for r in obs["out"]["pos"]]
+                whose = [j + 1 for j, cj in enumerate(calls[:k]) if [[fr(x) for x in r] for r in sources[cj["file"]][0][cj["idx"]]["pos"]] == got]
+                if whose:
+                    errs.insert(0, f"the regenerated frame carries the positions of the shooting point of call {whose[-1]} (source {calls[whose[-1] - 1]['file']}, frame {calls[whose[-1] - 1]['idx']}), "
+                                   f"not of its own (source {c['file']}, frame {c['idx']}): state of an earlier call leaked through the exe_dir")
+            if zm is False:
+                e_, _, _ = temperature_oracle(kind, setup, obs, stream, setup["T"])
+                errs += ["wrong temperature: " + m for m in e_[:1]]
+            out.append((obs, errs))
+    finally:
+        eng.exe_dir = old_exe
+    return out
+
+
+def seq_request(kind, setup, sources, calls, zm, ekins, sig, mass, ase_fixed, overwrite=True):
+    """One request line for VelM.seq_results: the source files as read (reader defaults filled in), the calls."""
+    n = len(setup["names"])
+
+    def fstr(src):
+        vel, box = as_read(kind, src, n)
+        return "@".join([qcols([[fr(x) for x in r] for r in src["pos"]]), qcols([[fr(x) for x in r] for r in vel]), qlist(fr(x) for x in (box or []))])
+
+    files = "!".join("|".join(fstr(f) for f in frames) for frames, _, _ in sources)
+    cs = "|".join("~".join([str(c["file"]), str(c["idx"]), "N" if ekins[c["idx"]] is None else qs(fr(ekins[c["idx"]])), ",".join(c["stream"])]) for c in calls)
+    return " ".join(["seq", kind, str(int(overwrite)), str(int(ase_fixed)), "N" if zm is None else str(int(zm)), qlist(fr(m) for m in mass),
+                     ",".join(str(i + 1) for i in range(n)), qlist(fr(x) for x in sig), files, cs])
+
+
+def sequence_stage(ctx, kit, eng, setup, sources, ekins, ase_src, ase_fixed, seq_runs, rng):
+    kind = kit.kind
+    n = len(setup["names"])
+    t0 = time.time()
+    for zm in (None, False, True):
+        calls = sequence_calls(rng, kind, n)
+        desc = {"family": "sequence", "engine": kind, "setup": setup, "sources": [fr_ for fr_, _, _ in sources], "calls": calls, "zero_momentum": zm, "ekins": list(ekins)}
+        res = run_sequence(kit, eng, setup, sources, calls, zm, ekins, ase_src)
+        first = next((o for o, _ in res if o is not None), None)
+        req = seq_request(kind, setup, sources, calls[:len(res)], zm, ekins, first["sig"], first["mass"], ase_fixed) if first is not None else None
+        seq_runs.append((kind, desc, res, req))
+        for k, (o, _) in enumerate(res):
+            ctx.count(("sequence", kind, k, req))
+            ctx.dist(f"sequence/{kind}/zm={zm}")
+            src = sources[calls[k]["file"]][0][calls[k]["idx"]]
+            ctx.dist(f"sequence/{kind}/shooting point: " + ("complete frame" if not missing_of(src) else "file without " + missing_of(src)))
+        for a, b in zip(calls, calls[1:]):
+            ctx.dist("sequence/step " + ("inside one trajectory file" if a["file"] == b["file"] and kind != "gromacs" else "to another file"))
+    SEQ_WALL[0] += time.time() - t0
+
+
+def sequence_report(ctx, runner, seq_runs):
+    """Oracle failures (with the sequence as failing input) first; the lock-step with VelM.seq_results otherwise."""
+    reqs = [rq for _, _, _, rq in seq_runs if rq is not None]
+    try:
+        outs = iter(run_parallel(runner, reqs)) if runner is not None else None
+    except Exception as e:  # noqa: BLE001  (e.g. a stale runner that does not know the request)
+        ctx.violation(f"model runner failed on the sequence requests: {e!r}", {"obligation": "c16 runner `seq`"}, False)
+        outs = None
+    reported = corr = ncalls = 0
+    pending = []
+    for kind, desc, res, rq in seq_runs:
+        ncalls += len(res)
+        ans = next(outs) if (outs is not None and rq is not None) else None
+        bad_call = next((k for k, (_, errs) in enumerate(res) if errs), None)
+        if bad_call is not None:
+            reported += 1
+            o, errs = res[bad_call]
+            if reported <= 3:
+                ctx.violation(f"C16 statement fails on the implementation ({kind}, call {bad_call + 1} of {len(desc['calls'])} consecutive modify_velocities calls in one exe_dir without clean-up, "
+                              f"shooting point = source {desc['calls'][bad_call]['file']} frame {desc['calls'][bad_call]['idx']}): {errs[0]}",
+                              {"case": desc, "failing_call": bad_call + 1, "errors": errs[:6], "impl": impl_view(o) if o is not None else None,
+                               "errors_of_all_calls": [e[:2] for _, e in res], "model": None if ans is None else ans[:2000]}, True)
+            continue
+        if ans is None:
+            continue
+        parts = ans.split(" # ")
+        bad = []
+        if ans.startswith("ERR") or ans == "NONE" or len(parts) != len(res):
+            bad = [f"model answered {ans[:200]!r} for {len(res)} calls"]
+        else:
+            for k, ((o, _), a) in enumerate(zip(res, parts)):
+                d = compare_model(kind, o, a + f" {SEQ_EXTRA}", len(desc["calls"][k]["stream"]))
+                if d:
+                    bad = [f"call {k + 1}: {x}" for x in d]
+                    break
+        if bad:
+            corr += 1
+            pending.append((f"correspondence model/implementation broken for a sequence of {kind} modify_velocities calls in one exe_dir: {bad[0]} "
+                            f"(the property oracle found no failing input in this sequence)",
+                            {"correspondence": "c16 runner `seq` (VelM.seq_results, extraction overwrites) vs consecutive engine.modify_velocities calls", "case": desc, "differences": bad[:4], "request": rq[:3000], "model": ans[:2000]}))
+    if not reported:
+        for what, payload in pending[:3]:
+            ctx.violation(what, payload, False)
+    ctx.cov["sequences"] = {"sequences": len(seq_runs), "calls": ncalls, "compared_with_model": len(reqs) if outs is not None else 0, "oracle_failures": reported, "model_disagreements": corr, "wall_s_real_calls": round(SEQ_WALL[0], 1),
+                            "calls_per_sequence": sorted({len(d["calls"]) for _, d, _, _ in seq_runs})}
+    if seq_runs:
+        kind, desc, res, rq = seq_runs[len(seq_runs) // 2]
+        ctx.sample({"sequence": {"engine": kind, "zero_momentum": desc["zero_momentum"], "calls": [(c["file"], c["idx"]) for c in desc["calls"]],
+                                 "returned (dek, kin_new)": [[repr(x) for x in o["ret"]] for o, _ in res if o is not None]}}, cap=8)
 
 
 # ----------------------------------------------------------------------------- call sites
@@ -1424,6 +1578,8 @@ def _run(ctx, runner, root):
     draw_sources = {}
     kits = {k: Kit(k, root) for k in KINDS}
     full_done = set()
+    seq_runs = []
+    SEQ_WALL[0] = 0.0
 
     def crashed(what, exc, desc):
         """an exception of the real code on a legal input is a finding with that input"""
@@ -1525,6 +1681,15 @@ def _run(ctx, runner, root):
                 except Exception as e:   # noqa: BLE001
                     crashed("prepare_shooting_point / modify_velocities with a real numpy Generator", e,
                             {"engine": kind, "setup": setup, "frames": frames, "real_generator_seed": seed, "ekins": list(ekins)})
+            # several calls in one exe_dir without clean-up (own generator: the families above keep their inputs)
+            try:
+                srng = random.Random(f"c16-seq/{ctx.seed}/{kind}/{len(seq_runs)}")
+                frames_b = make_frames(srng, kind, n, 4)
+                cfgs_b, files_b = kit.write_source(setup, frames_b)
+                sequence_stage(ctx, kit, eng, setup, [(frames, cfgs, files), (frames_b, cfgs_b, files_b)], ekins, ase_src, ase_fixed, seq_runs, srng)
+            except Exception as e:   # noqa: BLE001
+                import traceback
+                ctx.violation(f"sequence family could not be evaluated for {kind}: {e!r}", {"obligation": "py/checks/c16.py sequence_stage", "traceback": traceback.format_exc()[-2000:]}, False)
 
     # call sites: the moves of tis.py, the real program, a real in-process engine
     try:
@@ -1581,6 +1746,7 @@ def _run(ctx, runner, root):
                                "impl": impl_view(obs), "model": ans[:2000], "request": req}, False)
     for what, desc in list(oracle_fail.items())[:3]:
         ctx.violation(f"C16 statement fails on the implementation ({desc['engine']}): {what}", {"case": desc, "errors": [what]}, True)
+    sequence_report(ctx, runner, seq_runs)
     for k in (0, len(reqs) // 3, (2 * len(reqs)) // 3, len(reqs) - 1):
         if reqs:
             ctx.sample({"request": reqs[k][:600], "model": outs[k][:600], "impl": impl_view(metas[k][1])})
@@ -1590,6 +1756,7 @@ def _run(ctx, runner, root):
         f"each x zero_momentum in (absent, False, True), shooting in turn from a moving frame, a frame at rest (kin_old = 0) and the frames whose file lacks the optional entries (no velocities; xyz: no 'Box:' entry, with and without velocities), "
         f"GROMACS with stored ekin in (None, 0.0, values); plus runs with a real numpy Generator per set-up (seeded) checking exact consumption npart*3 in row-major order. "
         f"A case is distinct by its model request line (engine, masses, source frame, sigma, stream, setting); all are non-trivial (velocities are regenerated in each). "
+        f"Sequences: per set-up and zero_momentum in (absent, False, True) one sequence of 5-8 consecutive calls in one exe_dir without clean-up (one evaluation = one call; shooting points: the special frames of the trajectory file, two frames of a second file, the first one again; shuffled, own draws per call). "
         f"Call sites: one evaluation = one real move (or one real run of the program) with all regenerations it makes; spy family: every setting variant (all engine-read keys at value set A, at value set B, each key flipped alone, nothing configured) "
         f"x (direct, select_shoot, run_md) x (sh; wf with n_jumps 1..3 x cap absent / 4.5 x paths) ; program runs: 4 variants (thorough: all) on 4 interfaces with moves sh sh wf wf; TurtleMD: 2 and 3 atoms x zero_momentum true / false / absent x (wf, sh).")
     ctx.cov["correspondence"] = {"compared": len(reqs) if runner is not None else 0, "disagreements": corr_fail, "constants_compared": len(const_reqs), "constants_disagree": const_bad,
@@ -1614,6 +1781,7 @@ def _run(ctx, runner, root):
                         "source coordinates have <= 6 decimals, velocities <= 9, box <= 4 (exactly representable in every format)",
                         "numpy's normal(loc, scale, size) = loc + scale * standard_normal in C order (checked against a real Generator per set-up)",
                         "ASE: sigma_p = sqrt(m * units.kB * T) and Stationary as in the installed ASE " + _ase_version(),
+                        "sequences of calls: shooting points refer to source files (not to conf.* / genvel.* of the exe_dir); the exe_dir is used by one engine at a time",
                         "call sites: the settings are a flat dictionary of scalars (as a TOML table gives); velocity regeneration is reached only through the functions listed under coverage.call_sites"]
 
 
@@ -1677,6 +1845,8 @@ def replay(doc):
     case = doc["replay"].get("case")
     if case and str(case.get("family", "")).startswith("callsite"):
         return replay_callsite(case)
+    if case and case.get("family") == "sequence":
+        return replay_sequence(case)
     if not case or "engine" not in case:
         print(json.dumps(doc["replay"], indent=1)[:4000])
         return 0
@@ -1712,6 +1882,45 @@ def replay(doc):
         common.rmtree(root)
         logging.disable(logging.NOTSET)
 
+
+
+def replay_sequence(case):
+    import logging
+    root = common.scratch_dir("infv_c16r_")
+    cwd = os.getcwd()
+    try:
+        os.chdir(root)
+        kind = case["engine"]
+        kit = Kit(kind, root)
+        ase_fixed, ase_src = detect_ase_variant(kit, random.Random(1)) if kind == "ase" else (True, "engine.rgen")
+        setup = case["setup"]
+        try:
+            eng = kit.build(setup)
+        except Exception as e:  # noqa: BLE001
+            print(f"engine construction raises now: {type(e).__name__}: {e}")
+            return 1
+        sources = []
+        for frames in case["sources"]:
+            cfgs, files = kit.write_source(setup, frames)
+            sources.append((frames, cfgs, files))
+        res = run_sequence(kit, eng, setup, sources, case["calls"], case["zero_momentum"], case["ekins"], ase_src)
+        first = next((o for o, _ in res if o is not None), None)
+        ans = None
+        if first is not None:
+            rq = seq_request(kind, setup, sources, case["calls"][:len(res)], case["zero_momentum"], case["ekins"], first["sig"], first["mass"], ase_fixed)
+            ans = common.Runner("c16").run([rq])[0].split(" # ")
+        for k, ((o, errs), c) in enumerate(zip(res, case["calls"])):
+            print(f"call {k + 1}: shooting point = source {c['file']} frame {c['idx']}")
+            if o is not None:
+                print("  implementation now:", json.dumps({"pos": o["out"]["pos"], **impl_view(o)}))
+                if ans is not None and len(ans) == len(res):
+                    print("  model/implementation differences now:", compare_model(kind, o, ans[k] + f" {SEQ_EXTRA}", len(c["stream"])))
+            print("  oracle failures now:", errs)
+        return 1 if any(errs for _, errs in res) else 0
+    finally:
+        os.chdir(cwd)
+        common.rmtree(root)
+        logging.disable(logging.NOTSET)
 
 
 def replay_callsite(case):
